@@ -87,3 +87,30 @@ def rule_neutral_defaults(check, rule, family):
                                     % (callee.name, pname, norm(d), fi.key, norm(call)[:50], want), key=key,
                                     witness='%s(...) without %s must behave as with %s=%r' % (callee.name, pname, pname, want))
     check.floor(rule, 'omitted switch parameters at internal call sites', n, 1)
+
+
+def rule_public_switch_defaults(check, rule, func_key, what):
+    """The statement of the property is about the operation *called without switches* (`embed(a, b)`: "as if a function with the outer
+    signature called the inner one with just f(*args, **kwargs)"; `mask(sig, n, *names)`: nothing hidden): the defaults of the public
+    function's switches are their neutral values, whether or not a caller inside the package relies on them."""
+    repo = check.repo
+    fi = repo.func(func_key)
+    check.analysed(fi)
+    pos, vararg, kwonly, kwarg = fi.params()
+    n = 0
+    for pname in pos + kwonly:
+        if pname not in NEUTRAL or pname in ('num_args', 'depth'):
+            continue
+        d = _default_of(fi, pname)
+        if d is None:
+            continue
+        n += 1
+        want = NEUTRAL[pname]
+        key = '%s|public-default|%s' % (fi.key, pname)
+        site = '%s %s' % (fi.loc(), fi.key)
+        if isinstance(d, ast.Constant) and d.value == want and type(d.value) is type(want):
+            check.holds(rule, site, '%s(%s=%r) by default: %s' % (fi.name, pname, want, what), key=key)
+        else:
+            check.violation(rule, site, '%s() defaults %s to %s: called without switches it no longer is %s' % (fi.name, pname, norm(d), what), key=key,
+                            witness='%s(...) without %s' % (fi.name, pname))
+    check.floor(rule, 'switches of %s' % fi.name, n, 2)
